@@ -797,7 +797,22 @@ def check_read_body(ck, tree, RP="C01"):
             return None
 
         eq = atom_edges(cfg, all_equal)
-        eq_tests = {e[0] for e in eq}
+        # loop form:  for x in P: if x != P[k]: raise ...   — the loop's exhaustion edge is the all-equal fact
+        loop_ok = False
+        for fn_ in cfg.nodes:
+            if fn_.kind == "for" and fn_.id in cfg.reachable() and q.dotted(fn_.ast.iter) == P and isinstance(fn_.ast.target, ast.Name) and not fn_.ast.orelse:
+                x_ = fn_.ast.target.id
+                b_ = fn_.ast.body
+                if len(b_) == 1 and isinstance(b_[0], ast.If) and not b_[0].orelse and b_[0].body and isinstance(b_[0].body[-1], ast.Raise):
+                    t_ = b_[0].test
+                    if isinstance(t_, ast.Compare) and len(t_.ops) == 1 and isinstance(t_.ops[0], ast.NotEq):
+                        sides = [t_.left, t_.comparators[0]]
+                        if any(q.dotted(s_) == x_ for s_ in sides) and any(isinstance(s_, ast.Subscript) and q.dotted(s_.value) == P and isinstance(s_.slice, ast.Constant) for s_ in sides):
+                            for sid, kind in cfg.succ[fn_.id]:
+                                if kind == "false":
+                                    eq = eq | {(fn_.id, sid, kind)}
+                                    loop_ok = loop_ok or _is_input_error(raised_class(b_[0].body[-1]))
+        eq_tests = {e[0] for e in eq} | {n.id for n in cfg.nodes if n.kind == "test" and any(fn2.kind == "for" and fn2.id in {e[0] for e in eq} and contains(fn2.ast, n.ast) for fn2 in cfg.nodes)}
         takes = [n for n in cfg.stmt_nodes(lambda n: n.id not in eq_tests and node_mentions(n, lambda x: isinstance(x, ast.Subscript) and isinstance(x.ctx, ast.Load) and q.dotted(x.value) == P and isinstance(x.slice, ast.Constant)))]
         takes = [n for n in takes if flow.reach.unique(n, P) is not None and flow.reach.unique(n, P).node is defnode]
         if takes and not eq:
@@ -809,7 +824,7 @@ def check_read_body(ck, tree, RP="C01"):
         if takes:
             neg = atom_edges(cfg, lambda a: (None if all_equal(a) is None else (not all_equal(a))))
             ok, n = leads_to_raise(cfg, neg, _is_input_error)
-            ck.ob(R, fi, defnode.ast, (ok and n > 0) or not eq, "unequal Content-Length members raise HTTPInputError", construct="unequal-pieces edge")
+            ck.ob(R, fi, defnode.ast, (ok and n > 0) or loop_ok or not eq, "unequal Content-Length members raise HTTPInputError", construct="unequal-pieces edge")
     ck.note("%s: %d Content-Length list(s) in _read_body" % (R, len(lists)))
 
     # --- integer Content-Length -> fixed reader
